@@ -357,3 +357,30 @@ Theorem C03_uncertain_display_parse_roundtrip_full : forall n, valid_abs n ->
   uncertain_from_chars None (display_uncertain false n) = Ok (false, wire_rel n).
 Proof. exact uncertain_display_parse_roundtrip_full. Qed.
 Print Assumptions C03_uncertain_display_parse_roundtrip_full.
+
+(* ---- ParsedName::parent / split_first / iter_suffixes (model: C04.Model.parent_gen
+   with the T1 flags; steps: true = parent, false = split_first): after any
+   sequence of steps the name flattens, on the as_flat_slice path and through
+   the label iterator alike, to the wire form of a valid absolute name - the
+   corresponding suffix of the labels; split_first hands out a valid label *)
+From DV Require C04.Model C03.ProofsSuffix.
+Theorem C03_parsed_suffix_flatten : forall m pos lim p,
+  parse_ref m pos lim = Ok p -> (lim <= mlen m)%N -> wf_bytes m ->
+  exists n0, valid_abs n0 /\ parsed_flatten m p = Ok (wire_abs n0) /\
+  forall ss, exists q, C03.ProofsSuffix.steps ss m p = Ok q /\
+    let n := skipn (length ss) n0 in
+    valid_abs n /\ parsed_flatten m q = Ok (wire_abs n) /\ parsed_to_name m q = Ok (wire_abs n) /\
+    pn_len q = N.of_nat (length (wire_abs n)).
+Proof. exact C03.ProofsSuffix.parsed_suffix_flatten. Qed.
+Print Assumptions C03_parsed_suffix_flatten.
+
+Theorem C03_parsed_split_first_label : forall m pos lim p,
+  parse_ref m pos lim = Ok p -> (lim <= mlen m)%N -> wf_bytes m ->
+  exists n0, valid_abs n0 /\ parsed_flatten m p = Ok (wire_abs n0) /\
+  forall ss, exists q, C03.ProofsSuffix.steps ss m p = Ok q /\
+    match skipn (length ss) n0 with
+    | [] => C03.ProofsSuffix.split_first_label m q = Ok None
+    | l :: _ => C03.ProofsSuffix.split_first_label m q = Ok (Some (wire_rel [l])) /\ valid_rel [l]
+    end.
+Proof. exact C03.ProofsSuffix.parsed_split_first_label. Qed.
+Print Assumptions C03_parsed_split_first_label.
